@@ -19,6 +19,7 @@
 #include <cstring>
 #include <type_traits>
 #include <utility>
+#include <iterator>
 
 #include <boost/config.hpp>
 #include <boost/optional.hpp>
@@ -126,6 +127,41 @@ inline int MPI_Wait(MPI_Request* req, MPI_Status* st) {
 }
 inline int MPI_Recv(void* buf, int n, MPI_Datatype t, int src, int tag, MPI_Comm c, MPI_Status* st) {
     MPI_Request r; MPI_Irecv(buf, n, t, src, tag, c, &r); return MPI_Wait(&r, st);
+}
+inline int MPI_Test(MPI_Request* req, int* flag, MPI_Status* st) {
+    sim::MsgStatus ms; *flag = sim::cur()->test(req->r, &ms) ? 1 : 0;
+    if (*flag && st) { st->MPI_SOURCE = ms.source; st->MPI_TAG = ms.tag; st->MPI_ERROR = 0; }
+    return 0;
+}
+inline int MPI_Waitall(int n, MPI_Request* reqs, MPI_Status* sts) { for (int i = 0; i < n; i++) MPI_Wait(&reqs[i], sts ? &sts[i] : 0); return 0; }
+inline int MPI_Cancel(MPI_Request* req) { sim::cur()->cancel(req->r); return 0; }
+inline int MPI_Iprobe(int src, int tag, MPI_Comm c, int* flag, MPI_Status* st) {
+    sim::MsgStatus ms; *flag = sim::cur()->iprobe(c, src, tag, &ms, false) ? 1 : 0;
+    if (*flag && st) { st->MPI_SOURCE = ms.source; st->MPI_TAG = ms.tag; st->MPI_ERROR = ms.bytes; }
+    return 0;
+}
+inline int MPI_Probe(int src, int tag, MPI_Comm c, MPI_Status* st) {
+    sim::MsgStatus ms; sim::cur()->iprobe(c, src, tag, &ms, true);
+    if (st) { st->MPI_SOURCE = ms.source; st->MPI_TAG = ms.tag; st->MPI_ERROR = ms.bytes; }
+    return 0;
+}
+inline int MPI_Sendrecv(const void* sb, int sn, MPI_Datatype stp, int dst, int stag, void* rb, int rn, MPI_Datatype rtp, int src, int rtag, MPI_Comm c, MPI_Status* st) {
+    MPI_Request rr; MPI_Irecv(rb, rn, rtp, src, rtag, c, &rr); MPI_Request sr; MPI_Isend(sb, sn, stp, dst, stag, c, &sr); MPI_Wait(&sr, 0); return MPI_Wait(&rr, st);
+}
+inline int MPI_Comm_split(MPI_Comm c, int color, int key, MPI_Comm* out) { *out = sim::cur()->split(c, color, key); return 0; }
+inline int MPI_Comm_dup(MPI_Comm c, MPI_Comm* out) { sim::World* w = sim::cur(); *out = w->split(c, 0, w->ctx_rank(c)); return 0; }
+inline int MPI_Comm_free(MPI_Comm* c) { *c = MPI_COMM_NULL; return 0; }
+inline int MPI_Gather(const void* in, int n, MPI_Datatype t, void* out, int, MPI_Datatype, int root, MPI_Comm c) {
+    sim::World* w = sim::cur(); size_t nb = n * simmpi_detail::dt_size(t); std::vector<std::string> all;
+    w->gather(c, root, (const char*)in, nb, &all, false);
+    if (w->ctx_rank(c) == root) for (size_t i = 0; i < all.size(); i++) memcpy((char*)out + i * nb, all[i].data(), std::min(nb, all[i].size()));
+    return 0;
+}
+inline int MPI_Allgather(const void* in, int n, MPI_Datatype t, void* out, int, MPI_Datatype, MPI_Comm c) {
+    sim::World* w = sim::cur(); size_t nb = n * simmpi_detail::dt_size(t); std::vector<std::string> all;
+    w->gather(c, 0, (const char*)in, nb, &all, true);
+    for (size_t i = 0; i < all.size(); i++) memcpy((char*)out + i * nb, all[i].data(), std::min(nb, all[i].size()));
+    return 0;
 }
 
 // ---- boost::mpi subset -------------------------------------------------------------------------------
@@ -296,6 +332,21 @@ template <class It> inline bool test_all(It first, It last) {
     for (; first != last; ++first) if (first->active() && !first->test()) all = false;
     return all;
 }
+template <class It> inline optional<std::pair<status, It> > test_any(It first, It last) {
+    for (It it = first; it != last; ++it) if (it->active()) { optional<status> s = it->test(); if (s) return std::make_pair(*s, it); }
+    return optional<std::pair<status, It> >();
+}
+template <class It> inline It wait_some(It first, It last) {
+    // waits until at least one request has completed and moves the completed ones to the end (as boost::mpi::wait_some does)
+    if (first == last) return last;
+    for (;;) {
+        std::vector<bool> done; bool any = false;
+        for (It it = first; it != last; ++it) { bool d = !it->active() || (bool)it->test(); done.push_back(d); any = any || d; }
+        if (any) { std::vector<typename std::iterator_traits<It>::value_type> pend, fin; size_t k = 0;
+                   for (It it = first; it != last; ++it, ++k) (done[k] ? fin : pend).push_back(*it);
+                   It out = first; for (auto& r : pend) *out++ = r; It mid = out; for (auto& r : fin) *out++ = r; return mid; }
+    }
+}
 template <class It> inline std::pair<status, It> wait_any(It first, It last) {
     if (first == last) throw exception("wait_any on an empty range");
     for (;;) for (It it = first; it != last; ++it) if (it->active()) { optional<status> s = it->test(); if (s) return std::make_pair(*s, it); }
@@ -369,6 +420,15 @@ template <class T> inline void scatter(const communicator& c, const std::vector<
     detail::unpack(s, out);
 }
 template <class T> inline void scatter(const communicator& c, T& out, int root) { std::vector<T> none; scatter(c, none, out, root); }
+
+template <class T> inline void all_to_all(const communicator& c, const std::vector<T>& in, std::vector<T>& out) {
+    if (!detail::in_sim()) { out = in; return; }
+    // every rank gathers everything and picks the column addressed to it
+    std::vector<std::string> all; std::string s = detail::pack(in);
+    detail::W().gather(c.ctx(), 0, s.data(), s.size(), &all, true);
+    out.resize(all.size());
+    for (size_t i = 0; i < all.size(); i++) { std::vector<T> row; detail::unpack(all[i], row); out[i] = row.at(c.rank()); }
+}
 
 class timer {
 public:
